@@ -1,5 +1,5 @@
 """C04 -- propagation and search terminate on every finite problem (structural clauses)."""
-from ..rules import engine, search, variants, branching, optimize, shaving
+from ..rules import engine, search, variants, branching, optimize, scratch, shaving
 
 EXPLANATION = (
     "Static analysis of the progress measures: no event is announced by the write-back without a strict shrink of a stored bound (R-EVENTS-EXACT, R-WRITEBACK-MONO), so a propagator is re-queued only after progress; each registered variable heuristic answers the 'nothing to branch on' value only when no decision domain is open (first-iteration-state analysis + Houdini order invariants); every `while` loop of jitted code gets a derived termination argument (guard quantity strictly decreasing, monotone pointer chase, guarded counter sum) or is listed as undecided with its reason; every branch of every value heuristic strictly shrinks the domain. Not termination of the Hall-interval pointer chases (listed)."
@@ -14,3 +14,4 @@ def check(ctx, prog):
     optimize.rule_tighten(ctx, prog)
     optimize.rule_offset_primitives(ctx, prog)
     shaving.rule_shaving_loop(ctx, prog)
+    scratch.rule_hall_precondition(ctx, prog)
